@@ -5,6 +5,7 @@ result of EVERY executed instruction with that instruction's own return_type(), 
 by contents recursively; plus Code::return_type() vs. the final value; on generated programs, iterator
 pipelines pulled past exhaustion, and host calls of yielded functions with admissible arguments."""
 import random
+import re
 
 import progprop
 import progstream as P
@@ -212,6 +213,11 @@ def fragment_types(res, rnd, n, broken_model):
             continue
         stats[verdict] += 1
         res.count("fragment:" + verdict)
+        if verdict != "unsup":
+            if "match " in src:
+                res.count("fragment:%s:with-match" % verdict)
+            if re.search(r"if \w+: ", src):
+                res.count("fragment:%s:with-if-set" % verdict)
         if verdict == "unsup":
             continue
         accepted = isinstance(si, list) and si and si[0] == "accepted"
